@@ -567,6 +567,11 @@ def c10(tier, seed):
                       "exit": res["rc"]}, cap=8)
     c.evaluations = ncmd
     c.distinct = len(set(json.dumps(s["steps"]) for s in sessions))
+    # the window right after a bestmove line: the next `position` + `go` of the session are executed while the previous search
+    # thread is parked between the delivery of its answer and its return (harness-level stream buffer); ASan judges
+    sexe = ensure_monitor("asan", "sched_monitor")
+    for w in run_workers([[sexe, "--only-nextgo", "--worker", str(i), "--workers", "4", "--seed", str(seed)] for i in range(4)], 900):
+        c.absorb(w)
     # memcheck on shortened sessions (uninitialised values, invalid accesses the red zones miss)
     dv = core.ensure_engine("vg")
     vexe = os.path.join(dv, "chessplusplus")
@@ -608,6 +613,7 @@ def c10(tier, seed):
     c.require("sessions:multigame", 60)
     c.require("sessions:memcheck", 6)
     c.require("go-commands", 300)
+    c.require("next-go-while-previous-search-thread-is-returning", 10)
     return c.finish()
 
 
@@ -715,6 +721,9 @@ def c06(tier, seed):
         c.require("parked:" + pt, 10)
     if c.counters.get("inconclusive:watchdog-without-witness", 0):
         c.inconclusive.append("a schedule scenario hit the wall-clock watchdog without a logical witness (machine too slow?)")
+    c.require("next-go-while-previous-search-thread-is-returning", 10)
+    c.require("board-command-while-search-parked", 6)
+    c.require("go-infinite-on-self-ending-root", 6)
     c.require("isready-while-search-parked", 100)
     c.require("tsan-sessions-with-stop-flag-address", 40)
     return c.finish()
